@@ -8,7 +8,9 @@ EXTENDS Derive, Json
 CONSTANT TypeSet
 VARIABLE x
 
-TS == TypesOf(TypeSet) \cup SerOnlyOf(TypeSet) \cup {Norm(t) : t \in SerOnlyOf(TypeSet)} \cup HashUniverse
+TS == IF TypeSet = "grammar" THEN GrammarTypes
+      ELSE TypesOf(TypeSet) \cup SerOnlyOf(TypeSet) \cup {Norm(t) : t \in SerOnlyOf(TypeSet)} \cup HashUniverse
+ExportDefs == IF TypeSet = "grammar" THEN SetToSeq(GrammarDefs) ELSE AllDefs
 
 TypeInfo(t) ==
   [rec |-> "type", key |-> Key(t), rkey |-> Key(Norm(t)), desc |-> t,
@@ -20,7 +22,7 @@ TypeInfo(t) ==
    th |-> TypeHashOf(t), ah |-> AlignHashOf(t),
    dshape |-> DeserShape(Norm(t)), nvals |-> Len(Values(t)), erased |-> Erase(Norm(t))]
 
-ASSUME PrintT(ToJson([rec |-> "defs", defs |-> AllDefs]))
+ASSUME PrintT(ToJson([rec |-> "defs", defs |-> ExportDefs]))
 ASSUME \A t \in TS : PrintT(ToJson(TypeInfo(t)))
 
 Init == x = 0
